@@ -1300,3 +1300,32 @@ def meta_sources():
         Grammar("m4", [Rule("S", Choice(Seq(Choice(Lit("a"), Lit("b")), Choice(Seq(Lit("c"), Lit("d")), Lit("e"))), Opt(Choice(Lit("f"), Seq()))),
                             export=True)]),
     ]
+
+
+# ----------------------------------------------------------------------------- F-userctx (C14 with a user context type)
+
+def fam_userctx(tier, seed):
+    """the library-function shapes of F-user compiled with `user_context_type`: every check / extern function
+    takes the context as an extra argument; the number of calls that received it is observed"""
+    import copy
+    out = []
+    for g in fam_user(tier, seed):
+        if g.meta.get("user_rs"):
+            continue                  # per-grammar generated checks have no context variant
+        if any(r.kind == "char" and r.checks for r in g.rules):
+            continue                  # @char checks are never given the context
+        h = copy.deepcopy(g)
+        h.id = "uctx_%04d" % len(out)
+        h.meta = dict(g.meta)
+        h.meta["ctx"] = "verif_common::Ctx"
+        for r in h.rules:
+            if r.kind == "extern":
+                r.fn = dict(r.fn)
+                r.fn["path"] += "_ctx"
+            if hasattr(r, "checks"):
+                r.checks = [dict(c, path=c["path"] + "_ctx", name=c["path"] + "_ctx") for c in r.checks]
+        out.append(h)
+    return out
+
+
+FAMILIES["userctx"] = fam_userctx
